@@ -42,12 +42,10 @@ Record net_arch := { n_latent : Z; n_enc : enc_arch; n_head : list Z }.
 
 Definition latent_choices : list Z := [8; 16; 32].
 
-(* EvolvableWrapper.__init__ disables the mutation methods of the module it wraps and then forwards to
-   that module's own wrapped methods, which refuse to run once disabled (_mutation_wrapper:
-   "attribute not in module.mutation_methods"): on the current tree a head mutation of a StochasticActor
-   changes nothing and reports no applied method.  [wrapper_forwards] is the switch to flip when the
-   repair fixes/C03-wrapper-forwarding.patch is applied. *)
-Definition wrapper_forwards : bool := false.
+(* EvolvableWrapper.__init__ disables the mutation methods of the module it wraps and forwards to that module's own
+   wrapped methods.  Since fix 108ea35 a module marked as forwarded-by-a-wrapper runs them (wrapper_forwards = true);
+   before it they refused to run (see net_step_prefix below). *)
+Definition wrapper_forwards : bool := true.
 
 Definition prefix_name (p : string) (o : step_out enc_arch) : step_out enc_arch :=
   let '(a, nm, rt) := o in (a, (if String.eqb nm "" then "" else p +s nm), rt).
@@ -94,6 +92,14 @@ Definition net_step (s : net_static) (c : net_cfg) (a : net_arch) (m : net_meth)
       else
       let '(h', nm, rt) := mlp_step (n_head_cfg c) (n_head a) hm r1 r2 in
       ({| n_latent := n_latent a; n_enc := n_enc a; n_head := h' |}, "head_net." +s nm, rt)
+  end.
+
+(* pinned behaviour before fix 108ea35: a head mutation of a network whose head is an EvolvableWrapper (StochasticActor)
+   changed nothing and reported no applied method *)
+Definition net_step_prefix (s : net_static) (c : net_cfg) (a : net_arch) (m : net_meth) (r1 r2 : Z) : step_out net_arch :=
+  match m with
+  | NHead _ => if ns_wrapped_head s then (a, "", []) else net_step s c a m r1 r2
+  | _ => net_step s c a m r1 r2
   end.
 
 (* ---------------------------------------------------------------- parameter layout *)
